@@ -14,10 +14,10 @@ Hist == Mode \in {"history", "historyd", "historydc"}
 \* template is rendered with a receiver of another type than before (string, array, integer)
 OpsD == {Op("String", "ok"), Op("String", "bad"), Op("String", "row1"), Op("String", "row2"), Op("EvalString", "row1"), Op("EvalString", "row2"),
          Op("String", "polyS"), Op("String", "polyA"), Op("String", "polyI"), Op("Response", "polyA"), Op("Response", "polyS"),
-         Op("String", "ok2"), Op("String", "bare"), Op("String", "static"), Op("String", "nested-use"), Op("String", "dotS"), Op("String", "dotM"), Op("String", "lastA"), Op("String", "lastB"), Op("String", "lastC"), Op("String", "floatdec"), Op("String", "okbad"), Op("Response", "okbad"), Op("EvalString", "illegal"), Op("EvalString", "customfn"), Op("EvalString", "chanfn"), Op("String", "usesfn"), Op("String", "argOk"), Op("String", "argBad"), Op("EvalString", "sameprintI"), Op("EvalString", "sameprintS")}      \* pages of one layout: with inserts, with other inserts, without any
+         Op("String", "ok2"), Op("String", "bare"), Op("String", "static"), Op("String", "nested-use"), Op("String", "dotS"), Op("String", "dotM"), Op("String", "lastA"), Op("String", "lastB"), Op("String", "lastC"), Op("String", "floatdec"), Op("String", "okbad"), Op("Response", "okbad"), Op("EvalString", "illegal"), Op("EvalString", "customfn"), Op("EvalString", "chanfn"), Op("String", "usesfn"), Op("String", "argOk"), Op("String", "argBad"), Op("String", "shared"), Op("EvalString", "sameprintI"), Op("EvalString", "sameprintS")}      \* pages of one layout: with inserts, with other inserts, without any
 \* (historydc: longer histories over a core of the historyd operations)
 OpsDCore == {Op("String", "ok"), Op("String", "bad"), Op("String", "row1"), Op("String", "polyS"), Op("String", "polyA"), Op("String", "lastA"), Op("String", "lastC"),
-             Op("String", "floatdec"), Op("String", "okbad"), Op("EvalString", "sameprintI"), Op("EvalString", "chanfn"), Op("String", "usesfn"), Op("String", "argOk"), Op("String", "argBad")}
+             Op("String", "floatdec"), Op("String", "okbad"), Op("EvalString", "sameprintI"), Op("EvalString", "chanfn"), Op("String", "usesfn"), Op("String", "argOk"), Op("String", "argBad"), Op("String", "shared")}
 Ops15 == IF Mode = "historyd" THEN OpsD ELSE IF Mode = "historydc" THEN OpsDCore ELSE
          {Op("String", "ok"), Op("String", "bad"), Op("String", "missing"), Op("Response", "ok"), Op("Response", "bad"),
           Op("Response", "missing"), Op("EvalString", "ok"), Op("EvalString", "bad"), Op("EvalFile", "ok")}
